@@ -245,6 +245,11 @@ inline void enc_ack(wr& out, uint8_t type, uint16_t pid, uint8_t rc, int form /*
   w.u16(pid); if (form >= 1) w.u8(rc); if (form >= 2) w.u8(0);
   frame(out, type, type == PUBREL ? 2 : 0, b, w.n);
 }
+inline void enc_ack_props(wr& out, uint8_t type, uint16_t pid, uint8_t rc, uint8_t c /* Reason String "r<c>" (3.4.2.2.2) */) {
+  uint8_t b[16]; wr w = {b, sizeof b, 0, false};
+  w.u16(pid); w.u8(rc); w.u8(5); w.u8(0x1F); w.u16(2); w.u8('r'); w.u8(c);
+  frame(out, type, type == PUBREL ? 2 : 0, b, w.n);
+}
 inline void enc_connack(wr& out, bool session_present, uint8_t rc, const uint8_t* props, size_t plen) {
   uint8_t b[96]; wr w = {b, sizeof b, 0, false};
   w.u8(session_present ? 1 : 0); w.u8(rc); w.varint((uint32_t)plen); w.bytes(props, plen);
